@@ -29,8 +29,8 @@ ASSUMPTIONS = [
 ]
 FLOORS = {"quick": {"sessions": 5000, "steps": 60000, "steps:NO-outcomes": 6000,
                     "emulated-renames": 1000, "segmented-sessions": 2000},
-          "thorough": {"sessions": 45000, "steps": 600000, "steps:NO-outcomes": 60000,
-                       "emulated-renames": 9000, "segmented-sessions": 20000}}
+          "thorough": {"sessions": 500000, "steps": 6000000, "steps:NO-outcomes": 600000,
+                       "emulated-renames": 90000, "segmented-sessions": 200000}}
 SHARD_TIMEOUT = {"quick": 600, "thorough": 3000}
 
 NAMES_CONV = ["main", "vacation", "x y", "été", "spam-rules"]
@@ -38,7 +38,7 @@ NAMES_ANY = ["main", 'q"q', "{5}", "OK", "a\\b", "ACTIVE"]
 
 
 def plan(tier, seed):
-    n = 6000 if tier == "quick" else 80000
+    n = 6000 if tier == "quick" else 600000
     k = 16 if tier == "quick" else 64
     return [{"w": "sessions", "n": e - s, "rs": seed * 1000003 + i}
             for i, (s, e) in enumerate(split(n, k))]
